@@ -21,7 +21,7 @@ func init() {
 			"(6) shape coupling: split, maybeSplitChild and the merge step change a node's item count and child count together (truncate i / i+1, insertAt i / i+1, removeAt i / i+1, items and children appended together); (7) length++ exactly when the insert added an item, length-- exactly when the remove found one, Clear zeroes root and length together. " +
 			"NOT decided: equivalence with a sorted set, node occupancy bounds and equal leaf depth, correctness of the iterate state machine for every tree shape and pivot — all data dependent; no sound static argument within reach (stated in DESIGN.md).",
 		Assumptions: []string{"Item.Less is a strict weak order (caller's obligation)"},
-		Floors:      map[string]int{"C03.wrapper-lock": 9, "C03.cow-ownership": 7, "C03.cow-primitives": 4, "C03.scan-entry": 10, "C03.wrapper-scan": 4, "C03.limit": 2, "C03.update": 2, "C03.shape-coupling": 3, "C03.insert-replace": 1, "C03.rebalance-guard": 1, "C03.slice-primitives": 8, "C03.length": 3},
+		Floors:      map[string]int{"C03.wrapper-lock": 9, "C03.cow-ownership": 7, "C03.cow-primitives": 4, "C03.scan-entry": 10, "C03.wrapper-scan": 4, "C03.limit": 2, "C03.update": 2, "C03.shape-coupling": 3, "C03.insert-replace": 1, "C03.rebalance-guard": 1, "C03.slice-primitives": 8, "C03.lookup": 8, "C03.length": 3},
 		Run:         runC03,
 	})
 }
@@ -1013,6 +1013,8 @@ func (x *btCtx) checkShapeAndLength(rel string) {
 
 	// (6d) the slice primitives every structural operation is built from (items and children: two copies)
 	c.checkBtreeSlicePrimitives(rel)
+	// (6e) the read side: find / get / min / max and their tree-level wrappers
+	c.checkBtreeLookup(rel)
 
 	// (7) length accounting
 	lengthF := c.mustField(rel, "BTree", "length")
@@ -1296,4 +1298,232 @@ func (c *Ctx) checkBtreeSlicePrimitives(rel string) {
 			}
 		}
 	}
+}
+
+// checkBtreeLookup: the read side of the tree.
+//   items.find(x): r = sort.Search(len(s), i -> x.Less(s[i])); reports (r-1, true) exactly when r > 0 and
+//                  !s[r-1].Less(x) (i.e. s[r-1] == x under the order), else (r, false)
+//   node.get(k):   (i, found) = items.find(k); found -> items[i]; else children[i].get(k) when there are children; else nil
+//   min / max:     descend children[0] / children[len-1]; return items[0] / items[len-1]
+//   BTree.Get/Has/Min/Max: root nil -> nil, else the node-level function on the root with the caller's key
+func (c *Ctx) checkBtreeLookup(rel string) {
+	noInl := func(*ssa.Function, int) bool { return false }
+	cfg := TraceConfig{Inline: noInl}
+	rule := "C03.lookup"
+	// ---- find
+	if fn := c.mustFn(rel, "(items).find"); fn != nil {
+		cons := "(items).find"
+		ts, _ := c.Trace(fn, cfg)
+		good, n, why := true, 0, ""
+		item := fn.Params[1]
+		for _, t := range ts {
+			if t.End != EndReturn || len(t.Ret) != 2 {
+				continue
+			}
+			n++
+			var search, less *Event
+			for _, e := range t.Events {
+				if e.Kind == EvCall && e.callName() == "sort.Search" {
+					search = e
+				}
+				if e.Kind == EvCall && e.Method != nil && e.Method.Name() == "Less" {
+					less = e
+				}
+			}
+			if search == nil || len(search.Args) != 2 || search.Args[0].Kind != KOp || search.Args[0].Name != "len" {
+				good, why = false, "the position is not found with sort.Search over the slice"
+				continue
+			}
+			r := lf(search.Res)
+			facts := t.factsBefore(len(t.Events))
+			pos := hasFact(facts, func(f Fact) bool {
+				z, isz := f.Y.intConst()
+				return f.X.Key() == search.Res.Key() && isz && z == 0 && f.Op == token.GTR
+			})
+			found, isB := t.Ret[1].boolConst()
+			if !isB {
+				good, why = false, "found is not decided"
+				continue
+			}
+			// the equality probe: s[r-1].Less(item)
+			probeOK := false
+			var probeVal, probeKnown bool
+			if less != nil && len(less.Args) == 2 {
+				recv := less.Args[0]
+				if recv.Kind == KInit && recv.Args[0].Kind == KIndexAddr && lf(recv.Args[0].Args[1]).equal(r.add(lfConst(1), -1)) {
+					// argument is the item (through its spilled cell)
+					probeOK = true
+					probeVal, probeKnown = boolFact(facts, less.Res)
+				}
+			}
+			if found {
+				if !(pos && probeOK && probeKnown && !probeVal && lf(t.Ret[0]).equal(r.add(lfConst(1), -1))) {
+					good, why = false, "found is reported without `r > 0 && !s[r-1].Less(item)`, or the index returned is not r-1"
+				}
+			} else {
+				if !lf(t.Ret[0]).equal(r) {
+					good, why = false, "the insertion index returned on a miss is not sort.Search's result"
+				}
+				if pos && !(probeOK && probeKnown && probeVal) {
+					good, why = false, "a miss is reported for r > 0 without s[r-1].Less(item) having been found true: an item equal to s[r-1] is not found"
+				}
+			}
+		}
+		// the search predicate
+		if len(fn.AnonFuncs) == 1 {
+			cts, _ := c.Trace(fn.AnonFuncs[0], cfg)
+			for _, t := range cts {
+				if t.End != EndReturn {
+					continue
+				}
+				okp := false
+				for _, e := range t.Events {
+					if e.Kind == EvCall && e.Method != nil && e.Method.Name() == "Less" && len(e.Args) == 2 && e.Res.Key() == t.Ret[0].Key() {
+						a := e.Args[1]
+						if a.Kind == KInit && a.Args[0].Kind == KIndexAddr && a.Args[0].Args[1].Key() == "$"+fn.AnonFuncs[0].Params[0].Name() && strings.Contains(e.Args[0].Key(), item.Name()) {
+							okp = true
+						}
+					}
+				}
+				if !okp {
+					good, why = false, "the search predicate is not `item.Less(s[i])`"
+				}
+			}
+		} else {
+			good, why = false, "search predicate closure not found"
+		}
+		c.check(good && n > 0, rule, cons, fn.Pos(), "sort.Search + equality probe at r-1", "items.find: "+why+" — Get/Has/Delete/ReplaceOrInsert and every scan start from this position")
+	}
+	// ---- get
+	if fn := c.mustFn(rel, "(*node).get"); fn != nil {
+		cons := "(*node).get"
+		ts, _ := c.Trace(fn, cfg)
+		good, n, why := true, 0, ""
+		key := "$" + fn.Params[1].Name()
+		for _, t := range ts {
+			if t.End != EndReturn {
+				continue
+			}
+			n++
+			var find, rec *Event
+			for _, e := range t.Events {
+				if e.Kind == EvCall && e.Callee != nil && e.Callee.Name() == "find" {
+					find = e
+				}
+				if e.Kind == EvCall && e.Callee != nil && e.Callee.Name() == "get" {
+					rec = e
+				}
+			}
+			if find == nil || len(find.Args) != 2 || find.Args[1].Key() != key || !strings.Contains(find.Args[0].Key(), ".items") || find.Res.Kind != KTuple {
+				good, why = false, "the node's items are not searched for the caller's key"
+				continue
+			}
+			idx := find.Res.Args[0]
+			facts := t.factsBefore(len(t.Events))
+			fv, fk := boolFact(facts, find.Res.Args[1])
+			r := t.Ret[0]
+			switch {
+			case fk && fv:
+				if !(r.Kind == KInit && r.Args[0].Kind == KIndexAddr && strings.Contains(r.Args[0].Args[0].Key(), ".items") && r.Args[0].Args[1].Key() == idx.Key()) {
+					good, why = false, "a hit does not return items[i] at the index find reported"
+				}
+			case fk && !fv && rec != nil:
+				recv := rec.Args[0]
+				if !(rec.Res.Key() == r.Key() && len(rec.Args) == 2 && rec.Args[1].Key() == key && recv.Kind == KInit && recv.Args[0].Kind == KIndexAddr && strings.Contains(recv.Args[0].Args[0].Key(), ".children") && recv.Args[0].Args[1].Key() == idx.Key()) {
+					good, why = false, "a miss in an internal node does not continue in children[i] (the index find reported) with the same key"
+				}
+			case fk && !fv:
+				if !r.isNilConst() {
+					good, why = false, "a miss in a leaf does not return nil"
+				}
+			default:
+				good, why = false, "the result does not depend on find's `found`"
+			}
+		}
+		c.check(good && n > 0, rule, cons, fn.Pos(), "items[i] on a hit, children[i].get(key) on a miss", "node.get: "+why)
+	}
+	// ---- min / max
+	for _, m := range []string{"min", "max"} {
+		fn := c.mustFn(rel, m)
+		if fn == nil {
+			continue
+		}
+		ts, _ := c.Trace(fn, cfg)
+		good, n, why := true, 0, ""
+		idxOK := func(ia *Sym, field string) bool {
+			// ia = &X.field[idx]: idx is 0 (min) or len(X.field)-1 (max)
+			if ia.Kind != KIndexAddr || !strings.Contains(ia.Args[0].Key(), "."+field) {
+				return false
+			}
+			if m == "min" {
+				return isIntConst(ia.Args[1], 0)
+			}
+			want := lf(&Sym{Kind: KOp, Name: "len", Args: []*Sym{ia.Args[0]}}).add(lfConst(1), -1)
+			return lf(ia.Args[1]).equal(want)
+		}
+		for _, t := range ts {
+			for _, e := range t.Events {
+				if e.Kind == EvLoad && e.Addr.Kind == KIndexAddr && strings.Contains(e.Addr.Args[0].Key(), ".children") {
+					n++
+					if !idxOK(e.Addr, "children") {
+						good, why = false, "the descent does not follow the "+map[string]string{"min": "first", "max": "last"}[m]+" child"
+					}
+				}
+			}
+			if t.End == EndReturn && !t.Ret[0].isNilConst() {
+				r := t.Ret[0]
+				if !(r.Kind == KInit && idxOK(r.Args[0], "items")) {
+					good, why = false, "the item returned is not the "+map[string]string{"min": "first", "max": "last"}[m]+" item of the node reached"
+				}
+			}
+		}
+		c.check(good && n > 0, rule, m, fn.Pos(), "", m+": "+why)
+	}
+	// ---- tree-level wrappers
+	wr := func(name, callee string, keyed bool) {
+		fn := c.mustFn(rel, "(*BTree)."+name)
+		if fn == nil {
+			return
+		}
+		ts, _ := c.Trace(fn, cfg)
+		good, n := true, 0
+		for _, t := range ts {
+			if t.End != EndReturn {
+				continue
+			}
+			n++
+			var call *Event
+			for _, e := range t.Events {
+				if e.Kind == EvCall && e.Callee != nil && e.Callee.Name() == callee {
+					call = e
+				}
+			}
+			if call == nil {
+				// allowed only for the empty tree
+				if !(t.Ret[0].isNilConst() && hasFact(t.factsBefore(len(t.Events)), func(f Fact) bool { return strings.Contains(f.X.Key(), ".root") && f.Op == token.EQL && f.Y.isNilConst() })) {
+					good = false
+				}
+				continue
+			}
+			if !strings.Contains(call.Args[0].Key(), ".root") && name != "Has" {
+				good = false
+			}
+			if keyed && (len(call.Args) < 2 || call.Args[len(call.Args)-1].Key() != "$"+fn.Params[1].Name()) {
+				good = false
+			}
+			if name == "Has" {
+				r := t.Ret[0]
+				if !(r.Kind == KBin && r.Op == token.NEQ && r.Args[0].Key() == call.Res.Key() && r.Args[1].isNilConst()) {
+					good = false
+				}
+			} else if t.Ret[0].Key() != call.Res.Key() {
+				good = false
+			}
+		}
+		c.check(good && n > 0, rule, "(*BTree)."+name, fn.Pos(), "", "(*BTree)."+name+" is not the node-level "+callee+" on the root with the caller's key (nil for the empty tree)")
+	}
+	wr("Get", "get", true)
+	wr("Has", "Get", true)
+	wr("Min", "min", false)
+	wr("Max", "max", false)
 }
